@@ -135,10 +135,11 @@ pub fn avoid_match(avoid: &BTreeSet<String>, op: &Op, m: &Model, cfg: &Cfg) -> b
 type DeepState = BTreeMap<String, (bool, Vec<u8>, Option<SystemTime>, Option<SystemTime>)>;
 
 /// Deep state of one filesystem node read through its own root (type, bytes, created, modified)
-fn deep_state(root: &vfs::VfsPath) -> Result<DeepState, String> {
+fn deep_state(root: &vfs::VfsPath, prefix: &str) -> Result<DeepState, String> {
     let mut m = BTreeMap::new();
-    let items = crate::snapshot::walk(root, "").map_err(|e| e.display.clone())?;
-    let mut paths = vec![String::new()];
+    // walk items are absolute paths of the filesystem `root` belongs to
+    let items = crate::snapshot::walk(root, prefix).map_err(|e| e.display.clone())?;
+    let mut paths = vec![prefix.to_string()];
     for it in items {
         match it {
             Ok(p) => paths.push(p),
@@ -227,8 +228,11 @@ fn run_history(spec: &Spec, idx: u64, acc: &mut Acc) {
         domain.append_seeks = false;
     }
     let lowers = built.lower_regions();
-    let lower_roots: Vec<(usize, vfs::VfsPath)> = built.lower_views();
-    let mut lower_state: Vec<Option<DeepState>> = lower_roots.iter().map(|(_, r)| deep_state(r).ok()).collect();
+    let lower_roots: Vec<(usize, vfs::VfsPath, String)> = built.lower_views();
+    let mut lower_state: Vec<Option<DeepState>> = lower_roots.iter().map(|(_, r, p)| deep_state(r, p).ok()).collect();
+    if lower_state.iter().any(|s| s.is_none()) {
+        acc.count("lower_deep_snapshot_failed_at_setup", 1);
+    }
 
     let read_buf = *rng.pick(&[1usize, 2, 7, 4096, 8192, 8193]);
     let probe = universe.paths.clone();
@@ -480,8 +484,8 @@ fn run_history(spec: &Spec, idx: u64, acc: &mut Acc) {
             check_observer_events(&h, step, op.name(), &ev, acc);
         }
         check_observer_events(&h, step, "snapshot", &sev, acc);
-        for (i, (nid, r)) in lower_roots.iter().enumerate() {
-            let now = deep_state(r).ok();
+        for (i, (nid, r, pfx)) in lower_roots.iter().enumerate() {
+            let now = deep_state(r, pfx).ok();
             if let (Some(a), Some(b)) = (&lower_state[i], &now) {
                 if a != b {
                     let changed: Vec<String> = a
@@ -699,6 +703,8 @@ fn update_tombstones(t: &mut BTreeSet<String>, plan: &Plan, op: &Op, res: &Res, 
     // anything an operation (re-)creates stops being a tombstone
     let created: Vec<String> = match op {
         Op::CreateDir(p) | Op::CreateFile(p, _) => vec![p.clone()],
+        // a kept-open create_file handle is a creation of its path (append handles are not: they need an existing file)
+        Op::HoldOpen(p, false, _) => vec![p.clone()],
         Op::CreateDirAll(p) => {
             let mut v = crate::model::ancestors(p);
             v.push(p.clone());
